@@ -46,7 +46,7 @@ def workload(tier, rng):
         execs.append(gen.encode_exec(p, slots=rng.choice(["buf", "null", ["null", "buf"]])))
         if k <= 21 and rng.random() < 0.4:
             execs.append(gen.encode_exec(P(3, k, r, N1=n1, seed=seed, length=gen.need_len(3, k, 0)), slots="buf",
-                                         rebuild=(rng.randrange(k), list(range(k, k + r)))))
+                                         rebuild=(rng.randrange(k), rng.sample(range(k, k + r), r) if rng.random() < 0.5 else list(range(k, k + r)))))
     # high code rates: long, uneven equations (several columns may draw the same row)
     for _ in range(60 if q else 1200):
         k = rng.randint(20, 80); r = rng.randint(4, 12); n1 = rng.randint(3, min(10, r))
